@@ -409,3 +409,24 @@ Proof.
     rewrite (unreferenced_blocks_empty c v _ l HI G (fun s a Sa _ => Hno s a Sa) b Hb) in Hn. discriminate. }
   destruct r as [[]|code| |]; auto. exfalso. eapply destroy_lists_no_error; eauto.
 Qed.
+
+(* ---------------------------------------------------------------- C11: a dedicated allocation owns its memory object *)
+
+(* the memory object of a dedicated allocation has exactly the allocation's size and type, starts at offset 0,
+   and no other allocated Allocation object (block or dedicated) lives in it; nor is it the memory of any block *)
+Theorem dedicated_own_memory c v s a :
+  VamInv c v -> slot_is v s a -> a_kind a = 2 ->
+  (exists d, find_mem (m_mems (v_m v)) (a_mem a) = Some d /\ dm_size d = a_size a /\ dm_type d = a_type a) /\
+  find_offset v a = Some 0 /\
+  (forall s' a', slot_is v s' a' -> s' <> s -> a_mem a' <> a_mem a) /\
+  (forall lr l b, get_blist v lr = Some l -> In b (bl_blocks l) -> bk_mem b <> a_mem a).
+Proof.
+  intros HI Sa Ka.
+  destruct (vi_slots _ _ _ _ HI s a Sa (fun H => H)) as [(K & _)|(_ & _ & _ & d & Hf & Hdt & Hds)]; [congruence|].
+  split; [exists d; auto|]. split; [unfold find_offset; rewrite Ka; reflexivity|]. split.
+  - intros s' a' Sa' Hne E.
+    destruct (vi_slots _ _ _ _ HI s' a' Sa' (fun H => H)) as [(K' & l & b & rg & G & Bk & _ & _ & _ & _ & _ & _ & Hm & _)|(K' & _)].
+    + apply (vi_ded_not_block _ _ _ _ HI s a _ _ _ Sa Ka G Bk). congruence.
+    + apply Hne. eapply (vi_ded_inj _ _ _ _ HI); eauto.
+  - intros lr l b G Bk E. apply (vi_ded_not_block _ _ _ _ HI s a _ _ _ Sa Ka G Bk). congruence.
+Qed.
